@@ -436,9 +436,14 @@ def run(chk):
         "iinfo(uint16).max in the same function; (4) arrays that receive term factors take their dtype from the factors (a fixed real dtype "
         "silently drops imaginary parts); (5) the numeric site tensor is laid out (left bond, row, column, right bond) by the builder and read "
         "that way by apply / todense; the symbolic site matrix is indexed [incoming bond][outgoing bond]; (6) splitting a term into per-site "
-        "operators keeps the intra-site order and ascending site order, duplicate rows are merged by summing factors. Not decided: exactness "
-        "of the bipartite / QR decomposition for all term tables, swap exactness (runtime combinatorics, floating point).")
-    chk.assumptions = ["Quantity.as_au() is sign preserving", "numpy creates float64 arrays when no dtype is given"]
+        "operators keeps the intra-site order and ascending site order, duplicate rows are merged by summing factors; (7) the two one-site "
+        "decompositions, interpreted as whole functions on small exact coefficient tables (11 bipartite patterns x both matchings with the vertex "
+        "cover computed from the matching module's own source; 9 rational coefficient matrices with scipy's pivoted QR as an oracle), return out "
+        "operators, table and factors that reproduce the table given entry by entry. Not decided: exactness of the decomposition for all term "
+        "tables (the cases are a finite set of small patterns), validity of the oracle's contract for scipy, swap exactness, floating point.")
+    chk.assumptions = ["Quantity.as_au() is sign preserving", "numpy creates float64 arrays when no dtype is given",
+                       "scipy.linalg.qr(a, mode='economic', pivoting=True) returns (q, r, p) with a[:, p] = q r, q with orthonormal columns, r upper triangular with non-increasing |diagonal|",
+                       "numpy / scipy.sparse index semantics as modelled in renostat/xnp.py (an operation outside the model stops the analysis)"]
     chk.rule("offset-sign", "offset -> constant of the term table: exactly one negation on the way (the table side is decided by term-table)", 2)
     chk.rule("algo-dispatch", "dispatch total over {qr, Hopcroft-Karp, Hungarian}; unknown -> assert False; defaults documented", 5)
     chk.rule("narrow-cast", "uint16 construction from a computed count is guarded by an assert against iinfo(uint16).max", 3)
@@ -783,7 +788,7 @@ def run(chk):
 META = {
     "category": "other",
     "engine": "FLOW + TNA(axis tracking)",
-    "technique": "abstract interpretation (own ast interpreter, nothing of /repo is executed) of the MPO builder on symbolic terms, tables and operands: term table, one-site dispatcher, site-tensor layout, Op.split_elementary; def-use / dtype / narrow-integer dataflow lints on the remaining readers",
+    "technique": "abstract interpretation (own ast interpreter, nothing of /repo is executed) of the MPO builder on symbolic terms, tables and operands: term table, one-site dispatcher, site-tensor layout, Op.split_elementary; whole-function interpretation of _deduplicate_table, _decompose_graph and _decompose_qr on small exact tables (exact array model, scipy's QR as an oracle) with the coefficient table reconstructed from the result; def-use / dtype / narrow-integer dataflow lints on the remaining readers",
     "text": "Structural necessary conditions only: offset sign and row, total algorithm dispatch, guarded 16-bit casts, factor dtype, axis "
             "layout agreement between the builder and apply/todense, intra-site order. Breaking any of them breaks the operator (wrong "
             "constant, transposed operator, unreachable algorithm, silent index wrap-around, dropped imaginary parts). Exactness of the "
